@@ -17,7 +17,8 @@ func init() {
 			"(R2) for every client.TxState written in internal/spynode: UnSafe=true is accompanied by Safe=false, Cancelled=true by UnSafe=true, a possibly-true Safe is stored on a state that may come from storage only behind UnSafe==false of that state (or the state is a fresh literal with complementary flags), and UnSafe is never cleared on a stored state except behind UnSafe==false; " +
 			"(R3) the delay checker marks safe only behind !(UnSafe||Cancelled) of the fetched state and IsReady()==true, and notifies after a successful save; " +
 			"(R4) TxData.Trusted/Safe are true only where the tx comes from the trusted connection or a local submission, and AddRequest(trusted=true) only in the trusted inv handler; " +
-			"(R5) the per-tx safe/unsafe/trusted flags of the unconfirmed repository are written only by its own API, and unsafe is never cleared.",
+			"(R5) the per-tx safe/unsafe/trusted flags of the unconfirmed repository are written only by its own API, and unsafe is never cleared; " +
+			"(R6) the mempool reports a tx as seen only when its body was present, so an announced-only conflicting tx confirmed in a block still triggers the double-spend check that keeps the loser from being reported safe.",
 		NotDecided:  "'within a bounded time', the delay arithmetic, and trajectories over all orderings of vouching / conflict / timer events (schedule- and time-quantified).",
 		Assumptions: []string{"flag objects are identified per SSA value (a state re-fetched from storage is a new object)"},
 		Tech:        "guard edge cut-sets (conjunctive dominance + disjunctive cut), coupled flag updates per object, who-may-write",
@@ -260,8 +261,8 @@ func runC07(c *Check) {
 	tdSafe := c.P.Field("handlers", "TxData", "Safe")
 	allowedTrue := map[string]string{
 		"handlers.(*TXHandler).Handle": "tx received on the trusted connection",
-		"spynode.(*Node).SendTx":        "local submission",
-		"spynode.(*Node).HandleTx":      "local submission (response tx fed back)",
+		"spynode.(*Node).SendTx":       "local submission",
+		"spynode.(*Node).HandleTx":     "local submission (response tx fed back)",
 	}
 	n4 := 0
 	for _, fn := range c.P.FuncsIn("handlers", "spynode", "state", "storage") {
@@ -304,6 +305,9 @@ func runC07(c *Check) {
 		}
 	}
 	c.Min("R4", "TxData trust-flag stores", n4, 4)
+
+	// ---- R6 (shared with C03.R10, added after seeded round 2)
+	c.ruleRemoveReportsBody("R6")
 
 	// ---- R5 who may write unconfirmedTx flags
 	allowedW := map[string]string{
